@@ -97,6 +97,9 @@ static inline void ABTD_verif_ctx_init(ABTD_ythread_context *p_ctx)
     p_ctx->verif_tsan_fiber = NULL;
     p_ctx->verif_asan_fake = NULL;
     p_ctx->verif_tsan_owned = 0;
+    p_ctx->verif_oncpu = 0;
+    p_ctx->verif_cb = NULL;
+    p_ctx->verif_cb_arg = NULL;
 }
 
 static inline void ABTD_verif_ctx_fini(ABTD_ythread_context *p_ctx)
@@ -116,8 +119,21 @@ static inline void ABTD_verif_ctx_fini(ABTD_ythread_context *p_ctx)
                                           p_ctx->stacksize,
                                       p_ctx->stacksize);
 #endif
+    /* The context terminated with a jump (nothing saved it); it will be
+     * released or started afresh. */
+    __atomic_store_n(&p_ctx->verif_oncpu, 0, __ATOMIC_RELEASE);
     (void)p_ctx;
 }
+
+/* Occupancy monitor: verif_oncpu is 1 from the moment a stream switches to a
+ * context until that context has been completely saved again.  The callback of
+ * a *_with_call switch runs on the new stack after the old context was stored;
+ * it is what republishes the old ULT, so it is wrapped: the flag is cleared
+ * first, then the real callback runs.  A stream that switches to a context
+ * whose flag is still 1 would resume a ULT that is still running or half
+ * saved. */
+void ABTD_verif_saved_cb(void *arg);
+void ABTI_verif_fail(const char *what);
 
 #ifdef ABTD_VERIF_ASAN
 static inline void ABTD_verif_stack_bounds(ABTD_ythread_context *p_ctx,
@@ -148,8 +164,23 @@ static inline void ABTD_verif_stack_bounds(ABTD_ythread_context *p_ctx,
 __attribute__((always_inline)) static inline void
 ABTD_verif_pre_switch(ABTD_ythread_context *p_old,
                                          ABTD_ythread_context *p_new,
-                                         int is_jump)
+                                         int is_jump, int kind)
 {
+    ABTI_VERIF_COV(kind);
+    if (p_old) {
+        if (kind == ABTI_VERIF_C_CTX_SWITCH ||
+            kind == ABTI_VERIF_C_CTX_START_SWITCH) {
+            /* Nothing republishes the old context of a plain switch (a parent
+             * waiting for its child): it is resumed by this stream only. */
+            __atomic_store_n(&p_old->verif_oncpu, 0, __ATOMIC_RELEASE);
+        } else {
+            __atomic_store_n(&p_old->verif_oncpu, 1, __ATOMIC_RELAXED);
+            ABTI_VERIF_POINT(ABTI_VERIF_P_CTX_BEFORE_SWITCH);
+        }
+    }
+    if (__atomic_exchange_n(&p_new->verif_oncpu, 1, __ATOMIC_ACQ_REL) != 0)
+        ABTI_verif_fail("a stream switches to a ULT context that is still "
+                        "running or not completely saved");
 #ifdef ABTD_VERIF_TSAN
     if (p_old && !p_old->verif_tsan_fiber)
         p_old->verif_tsan_fiber = __tsan_get_current_fiber();
@@ -196,10 +227,18 @@ ABTD_verif_enter(ABTD_ythread_context *p_ctx)
 
 #define ABTD_VERIF_CTX_INIT(p_ctx) ABTD_verif_ctx_init(p_ctx)
 #define ABTD_VERIF_CTX_FINI(p_ctx) ABTD_verif_ctx_fini(p_ctx)
-#define ABTD_VERIF_PRE_SWITCH(p_old, p_new)                                    \
-    ABTD_verif_pre_switch(p_old, p_new, 0)
+#define ABTD_VERIF_PRE_SWITCH(p_old, p_new, kind)                              \
+    ABTD_verif_pre_switch(p_old, p_new, 0, kind)
 #define ABTD_VERIF_POST_SWITCH(p_old) ABTD_verif_post_switch(p_old)
-#define ABTD_VERIF_PRE_JUMP(p_new) ABTD_verif_pre_switch(NULL, p_new, 1)
+#define ABTD_VERIF_PRE_JUMP(p_new, kind)                                       \
+    ABTD_verif_pre_switch(NULL, p_new, 1, kind)
+#define ABTD_VERIF_WRAP_CB(p_old, f_cb, cb_arg)                                \
+    do {                                                                       \
+        (p_old)->verif_cb = (f_cb);                                            \
+        (p_old)->verif_cb_arg = (cb_arg);                                      \
+        (cb_arg) = (void *)(p_old);                                            \
+        (f_cb) = ABTD_verif_saved_cb;                                          \
+    } while (0)
 #define ABTD_VERIF_ENTER(p_ctx) ABTD_verif_enter(p_ctx)
 
 #endif /* ABTD_VERIF_FIBER_H_INCLUDED */
